@@ -3,7 +3,8 @@ import FalconModel.WsMode
 open Wu
 /-! line protocol: `run <client event> … | <label> …`, optionally prefixed by `cfg <major.minor> <max_receive_queue> ` (a WebSocket
     constructed with that announced spec version and queue setting: `Wm.wire` must yield the direct path, else the reply is
-    `buffered`; the reply then starts with `hdr=<supports_accept_headers>`). -/
+    `buffered`; the reply then starts with `hdr=<supports_accept_headers>`), or by `hist <op>,<op>,… <major.minor> ` (a WebSocket made by a `falcon.asgi.App`
+    object after the given history of option changes `q<n>` and earlier connections `c<major.minor>`, `-` = none; `Wm.serve` wires it). -/
 def parseVer (t : String) : Option Wm.Ver :=
   match t.splitOn "." with
   | [a, b] => match a.toNat?, b.toNat? with
@@ -73,17 +74,31 @@ def stepRun (line : String) : String :=
       | _, _ => "bad-op"
     | _ => "bad-op"
   | _ => "bad-op"
+/-- what the App object did before this connection: `q<n>` = `ws_options.max_receive_queue = n`, `c<major.minor>` = an earlier connection; `-` = nothing -/
+def parseOp (t : String) : Option Wm.AppOp :=
+  if t.startsWith "q" then (t.drop 1).toString.toNat?.map .setQueue
+  else if t.startsWith "c" then (parseVer (t.drop 1).toString).map .connect
+  else none
+def parseHist (t : String) : Option (List Wm.AppOp) :=
+  if t == "-" then some [] else (t.splitOn ",").mapM parseOp
+def wired (w : Wm.Wiring) (rest : List String) : String :=
+  s!"hdr={if w.acceptHeaders then 1 else 0} " ++
+    (match w.path with
+     | .direct => stepRun (" ".intercalate rest)
+     | .buffered _ => "buffered")
 def stepLine (line : String) : String :=
   let line := line.trimAscii.toString
   match line.splitOn " " with
   | "cfg" :: ver :: mq :: rest =>
     match parseVer ver, mq.toNat? with
-    | some v, some q =>
-      let w := Wm.wire v q
-      s!"hdr={if w.acceptHeaders then 1 else 0} " ++
-        (match w.path with
-         | .direct => stepRun (" ".intercalate rest)
-         | .buffered _ => "buffered")
+    | some v, some q => wired (Wm.wire v q) rest
+    | _, _ => "bad-op"
+  | "hist" :: h :: ver :: rest =>
+    match parseHist h, parseVer ver with
+    | some ops, some v =>
+      match (Wm.serve {} (ops ++ [.connect v])).getLast? with
+      | some w => wired w rest
+      | none => "bad-op"
     | _, _ => "bad-op"
   | _ => stepRun line
 partial def loop (h : IO.FS.Stream) : IO Unit := do
